@@ -24,7 +24,94 @@ NP_MUTATORS = {'put', 'place', 'copyto', 'fill_diagonal', 'putmask',
 
 
 def dataset_class(program):
-    return program.cls(DS)
+    klass = program.cls(DS)
+    if not getattr(program, '_ds_wrappers_inlined', False):
+        program._ds_wrappers_inlined = True
+        program._ds_wrappers = inline_ctor_wrappers(klass)
+    return klass
+
+
+CTOR_NAMES = ('Dataset', 'self.__class__', 'type(self)', 'cls')
+
+
+def _ctor_wrapper(meth):
+    '''(params, defaults, ctor call) when the method is nothing but
+    `return Dataset(<expressions of its parameters and self>)`.'''
+    body = [s for s in meth.node.body
+            if not (isinstance(s, ast.Expr) and
+                    isinstance(s.value, ast.Constant))]
+    if len(body) != 1 or not isinstance(body[0], ast.Return) or not \
+            isinstance(body[0].value, ast.Call) or \
+            txt(body[0].value.func) not in CTOR_NAMES:
+        return None
+    args = meth.node.args
+    if args.vararg or args.kwarg or args.posonlyargs or args.kwonlyargs or \
+            not args.args or args.args[0].arg != 'self':
+        return None
+    params = [a.arg for a in args.args[1:]]
+    call = body[0].value
+    fwd = [ctor_arg(call, 0, 'value'), ctor_arg(call, 1, 'error')]
+    if not params or not all(isinstance(a, ast.Name) and a.id in params
+                             for a in fwd):
+        # only helpers that FORWARD value and error are inlined
+        return None
+    defaults = dict(zip(params[len(params) - len(args.defaults):],
+                        args.defaults))
+    return params, defaults, body[0].value
+
+
+def inline_ctor_wrappers(klass):
+    '''self._helper(a, b) -> Dataset(a, b, bins=self.bins, ...) when the
+    helper only forwards to the constructor: the rules then see the
+    construction where it is used (a refactoring of the operators through
+    such a helper leaves every rule instance in place).'''
+    import copy
+    wrappers = {}
+    for name, meth in klass.methods.items():
+        wrap = _ctor_wrapper(meth)
+        if wrap is not None and name not in OPS:
+            wrappers[name] = wrap
+    if not wrappers:
+        return set()
+
+    class Inline(ast.NodeTransformer):
+        def visit_Call(self, node):
+            self.generic_visit(node)
+            if not (isinstance(node.func, ast.Attribute) and
+                    txt(node.func.value) == 'self' and
+                    node.func.attr in wrappers):
+                return node
+            params, defaults, ctor = wrappers[node.func.attr]
+            if any(isinstance(a, ast.Starred) for a in node.args) or any(
+                    k.arg is None for k in node.keywords) or \
+                    len(node.args) > len(params):
+                return node
+            bound = dict(zip(params, node.args))
+            for kwd in node.keywords:
+                if kwd.arg not in params or kwd.arg in bound:
+                    return node
+                bound[kwd.arg] = kwd.value
+            for par in params:
+                if par not in bound:
+                    if par not in defaults:
+                        return node
+                    bound[par] = defaults[par]
+
+            class Subst(ast.NodeTransformer):
+                def visit_Name(self, name):
+                    if name.id in bound and isinstance(name.ctx, ast.Load):
+                        return copy.deepcopy(bound[name.id])
+                    return name
+            new = Subst().visit(copy.deepcopy(ctor))
+            for sub in ast.walk(new):
+                ast.copy_location(sub, node)
+            return new
+
+    for name, meth in klass.methods.items():
+        if name in wrappers:
+            continue
+        Inline().visit(meth.node)
+    return set(wrappers)
 
 
 def local_defs(func):
@@ -41,7 +128,7 @@ def dataset_ctor_calls(func):
     out = []
     for call in calls_in(func.node):
         ftxt = txt(call.func)
-        if ftxt in ('Dataset', 'self.__class__', 'type(self)', 'cls'):
+        if ftxt in CTOR_NAMES:
             out.append(call)
     return out
 
@@ -170,7 +257,9 @@ def check_ds_sign(ctx):
     klass = dataset_class(ctx.program)
     n = 0
     for meth in klass.methods.values():
-        if meth.name == '__init__':
+        if meth.name == '__init__' or meth.name in getattr(
+                ctx.program, '_ds_wrappers', ()):
+            # a forwarding helper is judged where it is used (inlined)
             continue
         defs = local_defs(meth)
         parents = enclosing_chain(meth.node)
@@ -269,7 +358,11 @@ def _req(kind, other):
     return {term([se], [ov]), term([sv, oe], [ov, ov])}
 
 
-def check_quad(ctx, kinds=('add', 'sub', 'mul', 'div')):
+def check_quad(ctx, kinds=('add', 'sub', 'mul', 'div'), nan_strict=False):
+    '''nan_strict: the caller's property quantifies over NaN / infinite
+    errors (C05, C07): hypot(inf, NaN) is +inf (C99 Annex F, followed by
+    numpy) where sqrt(inf**2 + NaN**2) is NaN, so hypot masks an undefined
+    error and the statistic built on it becomes 0 instead of NaN.'''
     klass = dataset_class(ctx.program)
     n = 0
     for mname, kind in OPS.items():
@@ -291,7 +384,16 @@ def check_quad(ctx, kinds=('add', 'sub', 'mul', 'div')):
             shown = txt(resolve_local(err, defs))[:80]
             construct = f'{mname}: error = {shown}'
             terms = quad_terms(err, defs)
-            if terms == 'minus-under-root':
+            rcall = resolve_local(err, defs)
+            if nan_strict and isinstance(rcall, ast.Call) and \
+                    call_name(rcall) == 'hypot':
+                ctx.violated('QUAD', meth, construct, at=meth.where(call),
+                             detail='hypot(inf, NaN) = inf: an undefined '
+                                    'error on one side only is masked by an '
+                                    'infinite error on the other (the '
+                                    'statistic becomes 0 and passes); '
+                                    'sqrt(a**2 + b**2) keeps the NaN')
+            elif terms == 'minus-under-root':
                 ctx.violated('QUAD', meth, construct, at=meth.where(call),
                              detail='a difference under the root')
             elif terms is None:
@@ -324,7 +426,115 @@ def check_quad(ctx, kinds=('add', 'sub', 'mul', 'div')):
     ctx.floor('QUAD', n, len(kinds), 'dataset-dataset error expressions')
 
 
+# ------------------------------------------------------------- DS-CTOR ---
+
+def _bypasses_ctor(klass, expr, defs, depth=0):
+    """The expression evaluates to a Dataset allocated with __new__ (directly,
+    through a local name, or through a helper method of the class that
+    allocates with __new__ and never calls the constructor)."""
+    expr = resolve_local(expr, defs)
+    if not isinstance(expr, ast.Call) or depth > 2:
+        return None
+    if isinstance(expr.func, ast.Attribute) and expr.func.attr == '__new__':
+        return expr
+    if isinstance(expr.func, ast.Attribute) and txt(expr.func.value) in (
+            'self', 'Dataset', 'cls'):
+        helper = klass.methods.get(expr.func.attr)
+        if helper is not None and not dataset_ctor_calls(helper):
+            hdefs = local_defs(helper)
+            for ret in walk_local(helper.node):
+                if isinstance(ret, ast.Return) and ret.value is not None:
+                    found = _bypasses_ctor(klass, ret.value, hdefs,
+                                           depth + 1)
+                    if found is not None:
+                        return found
+    return None
+
+
+def check_ds_ctor(ctx):
+    """Well-formedness of the results of `dataset <op> number-or-array`: the
+    value `self.value <op> other` takes the BROADCAST shape of the two
+    operands, the error keeps the shape of self.error; only the checks of
+    Dataset.__init__ refuse a result whose value and error (and bins)
+    disagree.  A result of that branch allocated with __new__ is therefore
+    ill-formed for every array operand of a bigger shape."""
+    klass = dataset_class(ctx.program)
+    n = 0
+    for mname in OPS:
+        meth = klass.methods.get(mname)
+        if meth is None:
+            continue
+        defs = local_defs(meth)
+        parents = enclosing_chain(meth.node)
+        for ret in walk_local(meth.node):
+            if not isinstance(ret, ast.Return) or ret.value is None or \
+                    txt(ret.value) == 'NotImplemented':
+                continue
+            n += 1
+            construct = f'{mname}: return {txt(ret.value)[:50]}'
+            alloc = _bypasses_ctor(klass, ret.value, defs)
+            if alloc is None:
+                ctx.holds('DS-CTOR', meth, construct, at=meth.where(ret),
+                          nontrivial=False)
+            elif not _other_is_dataset(meth, ret.value, parents):
+                ctx.violated(
+                    'DS-CTOR', meth, construct, at=meth.where(ret),
+                    detail=f'result of the number / array branch allocated '
+                           f'with `{txt(alloc)[:40]}`: Dataset.__init__ does '
+                           f'not run, so nothing refuses a value broadcast '
+                           f'to a bigger shape than the error and the bins '
+                           f'(witness: dataset of shape (5,) + array of '
+                           f'shape (2, 5))')
+            else:
+                ctx.undecided('DS-CTOR', meth, construct, at=meth.where(ret),
+                              detail='dataset-dataset result built without '
+                                     'the constructor')
+    ctx.floor('DS-CTOR', n, 8, 'returns of the four operators')
+
+
 # ------------------------------------------------- DS-LEFT / DS-SHAPE ---
+
+def _left_origin(klass, expr, attr, other, defs, depth=0):
+    '''True: the expression is self.<attr> (or a copy / view of it); False:
+    it is absent, or comes from the other operand; None: unknown.'''
+    if expr is None:
+        return False
+    expr = resolve_local(expr, defs)
+    shown = txt(expr)
+    if shown == f'self.{attr}' or shown.startswith(f'self.{attr}.') or \
+            shown.startswith(f'self.{attr}['):
+        return True
+    if isinstance(expr, ast.Call) and call_name(expr) in (
+            'copy', 'deepcopy', 'OrderedDict', 'dict') and \
+            f'self.{attr}' in shown and f'{other}.' not in shown:
+        return True
+    if any(isinstance(n, ast.Name) and n.id == other
+           for n in ast.walk(expr)) and not (
+               isinstance(expr, ast.Call) and isinstance(
+                   expr.func, ast.Attribute) and
+               txt(expr.func.value) == 'self'):
+        return False
+    if isinstance(expr, ast.Call) and isinstance(
+            expr.func, ast.Attribute) and txt(expr.func.value) == 'self' \
+            and depth < 2:
+        helper = klass.methods.get(expr.func.attr)
+        if helper is not None:
+            hdefs = local_defs(helper)
+            hother = {p: a for p, a in zip(
+                [q for q in helper.params if q != 'self'], expr.args)}
+            kinds = set()
+            for ret in walk_local(helper.node):
+                if isinstance(ret, ast.Return) and ret.value is not None:
+                    oth = [p for p, a in hother.items() if txt(a) == other]
+                    kinds.add(_left_origin(klass, ret.value, attr,
+                                           oth[0] if oth else '\0', hdefs,
+                                           depth + 1))
+            if False in kinds:
+                return False
+            if kinds == {True}:
+                return True
+    return None
+
 
 def check_ds_left(ctx):
     klass = dataset_class(ctx.program)
@@ -335,6 +545,7 @@ def check_ds_left(ctx):
             continue
         rets = [r for r in walk_local(meth.node) if isinstance(r, ast.Return)
                 and r.value is not None]
+        defs = local_defs(meth)
         ctors = {id(c) for c in dataset_ctor_calls(meth)}
         for ret in rets:
             n += 1
@@ -346,11 +557,14 @@ def check_ds_left(ctx):
                 continue
             bins = ctor_arg(call, None if True else 2, 'bins')
             name = ctor_arg(call, 99, 'name')
-            ok_b = bins is not None and txt(bins).startswith('self.bins')
-            ok_n = name is not None and txt(name) == 'self.name'
+            other = [p for p in meth.params if p != 'self'][0]
+            ok_b = _left_origin(klass, bins, 'bins', other, defs)
+            ok_n = _left_origin(klass, name, 'name', other, defs)
             ctx.decide('DS-LEFT', meth, f'{mname}: bins={txt(bins) if bins is not None else None}, '
                        f'name={txt(name) if name is not None else None}',
-                       ok_b and ok_n, at=meth.where(call),
+                       False if False in (ok_b, ok_n) else
+                       None if None in (ok_b, ok_n) else True,
+                       at=meth.where(call),
                        detail='bins and name of the left operand are kept')
     ctx.floor('DS-LEFT', n, 8, 'returns of the four operators')
 
@@ -406,7 +620,84 @@ def check_op_direct(ctx):
                               'value of the plain array operation (double '
                               'rounding, ZeroDivisionError for a zero '
                               'constant)' if delegates else None)
+        _check_operand_kept(ctx, klass, meth)
     ctx.floor('OP-DIRECT', n, 8, 'returns of the four operators')
+
+
+LOSSY_CONVERSIONS = {'astype', 'int', 'round', 'around', 'round_', 'trunc',
+                     'floor', 'ceil', 'rint', 'fix', 'float16', 'float32',
+                     'int8', 'int16', 'int32', 'int64', 'intc', 'int_',
+                     'clip', 'nan_to_num'}
+LOSSLESS_CONVERSIONS = {'asarray', 'asanyarray', 'array', 'atleast_1d',
+                        'float64', 'double', 'float'}
+
+
+def _conversion_kind(klass, expr, pname, depth=0):
+    '''"lossy" / "lossless" / None for an expression the operand `pname` is
+    re-bound to.'''
+    if isinstance(expr, ast.Name) and expr.id == pname:
+        return 'lossless'
+    if isinstance(expr, ast.IfExp):
+        kinds = {_conversion_kind(klass, e, pname, depth)
+                 for e in (expr.body, expr.orelse)}
+        return 'lossy' if 'lossy' in kinds else \
+            'lossless' if kinds == {'lossless'} else None
+    if not isinstance(expr, ast.Call):
+        return None
+    cname = call_name(expr)
+    inner = [a for a in list(expr.args) + ([receiver(expr)] if receiver(
+        expr) is not None else []) if any(
+            isinstance(n, ast.Name) and n.id == pname for n in ast.walk(a))]
+    if not inner:
+        return None
+    if cname in LOSSY_CONVERSIONS:
+        return 'lossy'
+    if cname in LOSSLESS_CONVERSIONS:
+        return 'lossless'
+    if isinstance(expr.func, ast.Attribute) and txt(expr.func.value) in (
+            'self', 'Dataset', 'cls') and depth < 2:
+        helper = klass.methods.get(expr.func.attr)
+        if helper is not None:
+            hpars = [p for p in helper.params if p not in ('self', 'cls')]
+            # which helper parameter receives the operand
+            pos = [i for i, a in enumerate(expr.args) if a in inner]
+            if pos and pos[0] < len(hpars):
+                kinds = set()
+                for ret in walk_local(helper.node):
+                    if isinstance(ret, ast.Return) and ret.value is not None:
+                        kinds.add(_conversion_kind(klass, ret.value,
+                                                   hpars[pos[0]], depth + 1))
+                if 'lossy' in kinds:
+                    return 'lossy'
+                if kinds == {'lossless'}:
+                    return 'lossless'
+    return None
+
+
+def _check_operand_kept(ctx, klass, meth):
+    '''`a <op> b` uses b itself: an operator that re-binds its operand to a
+    CONVERTED value (astype to the dataset's dtype, rounding, clipping)
+    computes another operation for the operands the conversion changes (an
+    integer dataset times np.float64(0.5) becomes times 0).'''
+    params = [p for p in meth.params if p != 'self']
+    if not params:
+        return
+    other = params[0]
+    for node in walk_local(meth.node):
+        if isinstance(node, ast.Assign) and any(
+                isinstance(t, ast.Name) and t.id == other
+                for t in node.targets):
+            kind = _conversion_kind(klass, node.value, other)
+            ctx.decide('OP-DIRECT', meth,
+                       f'{meth.name}: operand re-bound: {txt(node)[:60]}',
+                       True if kind == 'lossless' else
+                       False if kind == 'lossy' else None,
+                       at=meth.where(node),
+                       detail='the operand is converted before the '
+                              'operation: the result is no longer '
+                              'self.value <op> other for the operands the '
+                              'conversion changes' if kind == 'lossy'
+                       else None)
 
 
 def check_ds_shape(ctx):
